@@ -431,6 +431,107 @@ def netcdf_packing(repo, rep):
         rep.fail("R-C11-7", fi.file, fi.node.lineno, fi.qualname, "packing", "packing must apply to a deep copy, to the spectrum variable only, with a fill value outside the data range")
 
 
+def writer_purity(repo, rep):
+    """R-C11-13 (shared with C17): writing is repeatable - no writer changes the dataset it serialises."""
+    rep.rule("R-C11-13", "(shared with C17) no format writer has a write effect on the dataset it was called on or on its arguments: a second "
+                         "write of the same dataset produces the same file (unit conversions are applied to a deep copy)")
+    from ..effects import Engine
+    from .c17 import python_part
+    eng = Engine(repo)
+    iters = eng.solve()
+    ent = python_part(repo, rep, eng, iters, "R-C11-13", only=lambda fi: fi.qualname.startswith("wavespectra.output.") and fi.name.startswith("to_"))
+    rep.floor("R-C11-13", "format writers", len(ent), 6)
+
+
+def swan_axis_order(repo, rep):
+    """R-C11-14: to_swan consumes efth positionally, so the complete axis order must be fixed first."""
+    rep.rule("R-C11-14", "to_swan fixes the complete axis order (time, site, freq, dir) of the working dataset before it reads values positionally "
+                         "(SwanSpecFile.write_spectra prints one row per first spectral axis)")
+    fi = repo.func("wavespectra.output.swan.to_swan")
+    A = repo.attrs
+    want = [A.TIMENAME, A.SITENAME, A.FREQNAME, A.DIRNAME]
+    tr = None
+    for n in ast.walk(fi.node):
+        if isinstance(n, ast.Assign) and isinstance(n.value, ast.Call) and isinstance(n.value.func, ast.Attribute) and n.value.func.attr == "transpose":
+            vals = [repo.const(fi.module, a) for a in n.value.args]
+            if vals == want and isinstance(n.targets[0], ast.Name) and unparse(n.value.func.value) == n.targets[0].id:
+                tr = n
+    pos_uses = [n for n in ast.walk(fi.node) if isinstance(n, ast.Attribute) and n.attr == "values" and
+                (A.SPECNAME in unparse(n.value) or "SPECNAME" in unparse(n.value))]
+    ctor = [n for n in ast.walk(fi.node) if isinstance(n, ast.Call) and call_name(n).split(".")[-1] == "SwanSpecFile"]
+    if not pos_uses or not ctor:
+        raise AnalysisError("to_swan: positional reads of efth / SwanSpecFile construction not found")
+    first_use = min(n.lineno for n in pos_uses)
+    if tr is None or tr.lineno > first_use:
+        rep.fail("R-C11-14", fi.file, first_use, fi.qualname, "efth.values read without a preceding transpose(time, site, freq, dir)",
+                 "the writer reads the spectra positionally: without fixing the complete axis order first, a dataset stored as (dir, freq) is "
+                 "written with frequencies and directions exchanged and reads back transposed")
+    else:
+        rep.ok("R-C11-14", f"{fi.file}:{tr.lineno} to_swan", unparse(tr)[:100], f"dominates the {len(pos_uses)} positional read(s) of the spectra")
+
+
+def stale_captures(repo, rep):
+    """R-C11-15: coordinate values captured into a plain array, then the dataset is re-ordered / subset along that coordinate, then the
+    captured array is used next to the re-ordered data: labels and data no longer correspond."""
+    rep.rule("R-C11-15", "in the writers, coordinate values captured from the working dataset are not used after that dataset has been re-ordered "
+                         "or subset along the same coordinate (labels written next to data of another order)")
+    A = repo.attrs
+    coords = {A.DIRNAME, A.FREQNAME, A.TIMENAME, A.SITENAME, A.LONNAME, A.LATNAME}
+    ncap = 0
+    for fi in repo.all_funcs():
+        if not fi.qualname.startswith("wavespectra.output."):
+            continue
+        caps = []
+        for n in ast.walk(fi.node):
+            if isinstance(n, ast.Assign) and len(n.targets) == 1 and isinstance(n.targets[0], ast.Name):
+                for x in ast.walk(n.value):
+                    base = coord = None
+                    if isinstance(x, ast.Attribute) and x.attr in coords and isinstance(x.value, ast.Name):
+                        base, coord = x.value.id, x.attr
+                    elif isinstance(x, ast.Subscript) and isinstance(x.value, ast.Name) and repo.const(fi.module, x.slice) in coords:
+                        base, coord = x.value.id, repo.const(fi.module, x.slice)
+                    if base is not None and base != n.targets[0].id:
+                        txt = unparse(n.value)
+                        sizeonly = txt.endswith(".size") or txt.startswith("len(")
+                        caps.append((n, n.targets[0].id, base, coord, sizeonly))
+                        break
+        for cap, name, base, coord, sizeonly in caps:
+            ncap += 1
+            reorder = None
+            for n in ast.walk(fi.node):
+                if isinstance(n, ast.Assign) and any(isinstance(t, ast.Name) and t.id == base for t in n.targets) and n.lineno > cap.lineno:
+                    for c in ast.walk(n.value):
+                        if isinstance(c, ast.Call) and isinstance(c.func, ast.Attribute) and c.func.attr in ("sortby", "sel", "isel", "reindex", "roll", "drop_sel", "drop_isel"):
+                            keys = set()
+                            for a in c.args:
+                                v = repo.const(fi.module, a)
+                                if isinstance(v, str):
+                                    keys.add(v)
+                                elif isinstance(v, (list, tuple)):
+                                    keys |= {k for k in v if isinstance(k, str)}
+                                elif isinstance(v, dict):
+                                    keys |= set(v)
+                            keys |= {k.arg for k in c.keywords if k.arg}
+                            if coord in keys and not (sizeonly and c.func.attr in ("sortby", "roll")):
+                                if reorder is None or n.lineno < reorder.lineno:
+                                    reorder = n
+            if reorder is None:
+                rep.ok("R-C11-15", f"{fi.file}:{cap.lineno} {fi.short}", unparse(cap)[:80], f"'{base}' is not re-ordered along '{coord}' afterwards")
+                continue
+            # the capture may be refreshed after the re-ordering; a use is stale only between the re-ordering and a refresh
+            later = [u for u in ast.walk(fi.node) if isinstance(u, ast.Name) and u.id == name and isinstance(u.ctx, ast.Load) and u.lineno > reorder.lineno]
+            refresh = [a for a in ast.walk(fi.node) if isinstance(a, ast.Assign) and any(isinstance(t, ast.Name) and t.id == name for t in a.targets)
+                       and a.lineno > reorder.lineno]
+            stale = [u for u in later if not any(a.lineno <= u.lineno for a in refresh)]
+            if stale:
+                rep.fail("R-C11-15", fi.file, stale[0].lineno, fi.qualname, f"{unparse(cap)[:60]} ... {unparse(reorder)[:60]} ... use of '{name}'",
+                         f"'{name}' holds the '{coord}' values of '{base}' as they were BEFORE '{base}' was re-ordered along '{coord}' (line {reorder.lineno}); "
+                         "written next to the re-ordered data, every label is attached to the wrong row")
+            else:
+                rep.ok("R-C11-15", f"{fi.file}:{cap.lineno} {fi.short}", unparse(cap)[:80], "not used after the re-ordering")
+    rep.floor("R-C11-15", "coordinate captures in the writers", ncap, 8)
+
+
 def run(repo, rep, tier):
     rep.rule("R-C11-12", "every parameter of the functions behind this property is read (writers): none is accepted and then ignored")
     from .shared import unused_parameters
@@ -456,6 +557,9 @@ def run(repo, rep, tier):
     netcdf_packing(repo, rep)
     chunk_loops(repo, rep)
     stack_guards(repo, rep)
+    writer_purity(repo, rep)
+    swan_axis_order(repo, rep)
+    stale_captures(repo, rep)
     rep.rule("R-C11-11", "a per-record buffer that is filled in place and emitted once per iteration is allocated afresh inside the iteration")
     from .shared import per_iteration_buffers
     nl, nb = per_iteration_buffers(repo, rep, "R-C11-11", ("wavespectra.core.swan", "wavespectra.input.", "wavespectra.output."))
